@@ -239,9 +239,12 @@ func (b *BaseStore) InitBaseStore(ipfs coreiface.CoreAPI, identity *identityprov
 	b.index = options.Index(b.Identity().PublicKey)
 	b.muIndex.Unlock()
 
+	// the replicator's load events are internal to this store: they are emitted
+	// on a private bus, not on the bus shared with the other stores of the
+	// instance (which would make every store handle every store's replication)
 	b.replicator, err = replicator.NewReplicator(b, options.ReplicationConcurrency, &replicator.Options{
 		Logger:   b.logger,
-		EventBus: b.eventBus,
+		EventBus: eventbus.NewBus(),
 		Tracer:   b.tracer,
 	})
 	if err != nil {
@@ -1101,6 +1104,13 @@ func (b *BaseStore) storeListener(topic iface.PubSubTopic) error {
 			}
 
 			evt := e.(stores.EventWrite)
+
+			// the bus is shared by every store opened by the same instance:
+			// only announce writes made to this store
+			if evt.Address == nil || evt.Address.String() != b.id {
+				continue
+			}
+
 			go func() {
 				// @TODO(gfanton): HandleEventWrite trigger a
 				// publish that is a blocking call if no peers
